@@ -529,6 +529,30 @@ func (v vList) Validate() error {
 	return nil
 }
 
+// a list / a map that must not be empty (nil included)
+type neList []string
+
+func (l neList) Validate() error {
+	if len(l) == 0 {
+		return errors.New("at least one entry is needed")
+	}
+	return nil
+}
+
+type neMap map[string]int
+
+func (m neMap) Validate() error {
+	if len(m) == 0 {
+		return errors.New("at least one entry is needed")
+	}
+	return nil
+}
+
+// a struct whose fields carry tag validators (no Validate method)
+type tagged struct {
+	A int `validate:"min=1"`
+}
+
 type dGood struct {
 	A int `validate:"min=1"`
 }
@@ -653,6 +677,12 @@ func c04Catalogue() *core.Space {
 	type D5 struct{ Limits dLimits }
 	type D6 struct{ Weights dWeights }
 	type D7 struct{ Limits dGoodLimits }
+	type NE1 struct{ Hosts neList }
+	type NE2 struct{ Ports neMap }
+	type NE3 struct{ L []neList }
+	type NE4 struct{ M map[string]neMap }
+	type IF2 struct{ X []interface{} }
+	type IF3 struct{ X map[string]interface{} }
 	type PM1 struct {
 		P *map[string]int `validate:"nonzero"`
 	}
@@ -663,6 +693,21 @@ func c04Catalogue() *core.Space {
 		P *[]int `validate:"nonzero"`
 	}
 	cases := []c04CatCase{
+		{"list type whose Validate rejects the empty list: setting absent (nil list)", func() interface{} { return &NE1{} }, M{"y": 1}, true},
+		{"list type whose Validate rejects the empty list: explicit null", func() interface{} { return &NE1{} }, M{"hosts": nil}, true},
+		{"list type whose Validate rejects the empty list: entries present", func() interface{} { return &NE1{} }, M{"hosts": L{"h"}}, false},
+		{"map type whose Validate rejects the empty map: setting absent (nil map)", func() interface{} { return &NE2{} }, M{"y": 1}, true},
+		{"map type whose Validate rejects the empty map: entries present", func() interface{} { return &NE2{} }, M{"ports": M{"a": 1}}, false},
+		{"nil list of such a type inside a pre-filled list, field absent from the config", func() interface{} { return &NE3{L: []neList{{"h"}, nil}} }, M{"y": 1}, true},
+		{"nil map of such a type inside a pre-filled map, field absent from the config", func() interface{} { return &NE4{M: map[string]neMap{"k": nil}} }, M{"y": 1}, true},
+		{"interface{} field pre-filled with a struct whose tag validator fails, absent from the config", func() interface{} { return &IF1{X: tagged{0}} }, M{"y": 1}, true},
+		{"interface{} field pre-filled with a pointer to a struct whose tag validator fails", func() interface{} { return &IF1{X: &tagged{0}} }, M{"y": 1}, true},
+		{"interface{} field pre-filled with a valid tagged struct", func() interface{} { return &IF1{X: tagged{2}} }, M{"y": 1}, false},
+		{"interface{} field pre-filled with a list holding a struct whose tag validator fails", func() interface{} { return &IF1{X: []tagged{{2}, {0}}} }, M{"y": 1}, true},
+		{"interface{} field pre-filled with a map holding a struct whose Validate fails", func() interface{} { return &IF1{X: map[string]vStruct{"k": {13}}} }, M{"y": 1}, true},
+		{"[]interface{} pre-filled with a struct whose tag validator fails, absent from the config", func() interface{} { return &IF2{X: []interface{}{tagged{2}, &tagged{0}}} }, M{"y": 1}, true},
+		{"map[string]interface{} pre-filled with a struct whose tag validator fails, absent from the config", func() interface{} { return &IF3{X: map[string]interface{}{"k": tagged{0}}} }, M{"y": 1}, true},
+		{"top-level map[string]interface{} pre-filled with a struct whose tag validator fails, key absent from the config", func() interface{} { return &map[string]interface{}{"k": &tagged{0}} }, M{"y": 1}, true},
 		{"nil pointer to a map with nonzero: empty object", func() interface{} { return &PM1{} }, M{"p": M{}}, true},
 		{"nil pointer to a map with nonzero: entries present", func() interface{} { return &PM1{} }, M{"p": M{"a": 1}}, false},
 		{"nil pointer to a pointer to a map with nonzero: empty object", func() interface{} { return &PM2{} }, M{"p": M{}}, true},
